@@ -7,8 +7,10 @@ verus! {
 #[verifier::external_body] pub struct KStringCow { _p: u8 }
 #[verifier::external_body] pub struct ScalarCow { _p: u8 }
 #[verifier::external_body] pub struct DisplayCow { _p: u8 }
-/// (not opaque only so that the static NIL below can be given an initialiser; every fact about a Value is an uninterpreted function of it)
-pub struct Value { pub repr: u64 }
+/// payloads of the real `enum Value` (stand-ins; each is a view of its own)
+#[verifier::external_body] pub struct Scalar { _p: u8 }
+#[verifier::external_body] pub struct Array { _p: u8 }
+#[verifier::external_body] pub struct Object { _p: u8 }
 #[derive(Clone, Copy)]
 pub enum State { Truthy, DefaultValue, Empty, Blank }
 pub trait ArrayView { }
@@ -43,7 +45,11 @@ pub trait ValueView {
 /// the unsizing coercion `&T -> &dyn ValueView` as a spec term: the SAME value seen as a view
 pub open spec fn as_dyn<T: ValueView>(v: &T) -> &dyn ValueView { v }
 
-impl ValueView for Value {
+//@ item crates/core/src/model/value/values.rs :: enum Value
+//@ kind enum
+//@ vis pub
+//@ end
+impl ValueView for Scalar {
     uninterp spec fn render_of(&self) -> DisplayCow;
     uninterp spec fn source_of(&self) -> DisplayCow;
     uninterp spec fn type_name_of(&self) -> &'static str;
@@ -67,16 +73,175 @@ impl ValueView for Value {
     #[verifier::external_body] fn as_state(&self) -> (r: Option<State>) { unimplemented!() }
     #[verifier::external_body] fn is_nil(&self) -> (r: bool) { unimplemented!() }
 }
+impl ValueView for Array {
+    uninterp spec fn render_of(&self) -> DisplayCow;
+    uninterp spec fn source_of(&self) -> DisplayCow;
+    uninterp spec fn type_name_of(&self) -> &'static str;
+    uninterp spec fn state_of(&self, state: State) -> bool;
+    uninterp spec fn kstr_of(&self) -> KStringCow;
+    uninterp spec fn value_of(&self) -> Value;
+    uninterp spec fn scalar_of(&self) -> Option<ScalarCow>;
+    uninterp spec fn array_of(&self) -> Option<&dyn ArrayView>;
+    uninterp spec fn object_of(&self) -> Option<&dyn ObjectView>;
+    uninterp spec fn as_state_of(&self) -> Option<State>;
+    uninterp spec fn nil_of(&self) -> bool;
+    #[verifier::external_body] fn render(&self) -> (r: DisplayCow) { unimplemented!() }
+    #[verifier::external_body] fn source(&self) -> (r: DisplayCow) { unimplemented!() }
+    #[verifier::external_body] fn type_name(&self) -> (r: &'static str) { unimplemented!() }
+    #[verifier::external_body] fn query_state(&self, state: State) -> (r: bool) { unimplemented!() }
+    #[verifier::external_body] fn to_kstr(&self) -> (r: KStringCow) { unimplemented!() }
+    #[verifier::external_body] fn to_value(&self) -> (r: Value) { unimplemented!() }
+    #[verifier::external_body] fn as_scalar(&self) -> (r: Option<ScalarCow>) { unimplemented!() }
+    #[verifier::external_body] fn as_array(&self) -> (r: Option<&dyn ArrayView>) { unimplemented!() }
+    #[verifier::external_body] fn as_object(&self) -> (r: Option<&dyn ObjectView>) { unimplemented!() }
+    #[verifier::external_body] fn as_state(&self) -> (r: Option<State>) { unimplemented!() }
+    #[verifier::external_body] fn is_nil(&self) -> (r: bool) { unimplemented!() }
+}
+impl ValueView for Object {
+    uninterp spec fn render_of(&self) -> DisplayCow;
+    uninterp spec fn source_of(&self) -> DisplayCow;
+    uninterp spec fn type_name_of(&self) -> &'static str;
+    uninterp spec fn state_of(&self, state: State) -> bool;
+    uninterp spec fn kstr_of(&self) -> KStringCow;
+    uninterp spec fn value_of(&self) -> Value;
+    uninterp spec fn scalar_of(&self) -> Option<ScalarCow>;
+    uninterp spec fn array_of(&self) -> Option<&dyn ArrayView>;
+    uninterp spec fn object_of(&self) -> Option<&dyn ObjectView>;
+    uninterp spec fn as_state_of(&self) -> Option<State>;
+    uninterp spec fn nil_of(&self) -> bool;
+    #[verifier::external_body] fn render(&self) -> (r: DisplayCow) { unimplemented!() }
+    #[verifier::external_body] fn source(&self) -> (r: DisplayCow) { unimplemented!() }
+    #[verifier::external_body] fn type_name(&self) -> (r: &'static str) { unimplemented!() }
+    #[verifier::external_body] fn query_state(&self, state: State) -> (r: bool) { unimplemented!() }
+    #[verifier::external_body] fn to_kstr(&self) -> (r: KStringCow) { unimplemented!() }
+    #[verifier::external_body] fn to_value(&self) -> (r: Value) { unimplemented!() }
+    #[verifier::external_body] fn as_scalar(&self) -> (r: Option<ScalarCow>) { unimplemented!() }
+    #[verifier::external_body] fn as_array(&self) -> (r: Option<&dyn ArrayView>) { unimplemented!() }
+    #[verifier::external_body] fn as_object(&self) -> (r: Option<&dyn ObjectView>) { unimplemented!() }
+    #[verifier::external_body] fn as_state(&self) -> (r: Option<State>) { unimplemented!() }
+    #[verifier::external_body] fn is_nil(&self) -> (r: bool) { unimplemented!() }
+}
+impl ValueView for State {
+    uninterp spec fn render_of(&self) -> DisplayCow;
+    uninterp spec fn source_of(&self) -> DisplayCow;
+    uninterp spec fn type_name_of(&self) -> &'static str;
+    uninterp spec fn state_of(&self, state: State) -> bool;
+    uninterp spec fn kstr_of(&self) -> KStringCow;
+    uninterp spec fn value_of(&self) -> Value;
+    uninterp spec fn scalar_of(&self) -> Option<ScalarCow>;
+    uninterp spec fn array_of(&self) -> Option<&dyn ArrayView>;
+    uninterp spec fn object_of(&self) -> Option<&dyn ObjectView>;
+    uninterp spec fn as_state_of(&self) -> Option<State>;
+    uninterp spec fn nil_of(&self) -> bool;
+    #[verifier::external_body] fn render(&self) -> (r: DisplayCow) { unimplemented!() }
+    #[verifier::external_body] fn source(&self) -> (r: DisplayCow) { unimplemented!() }
+    #[verifier::external_body] fn type_name(&self) -> (r: &'static str) { unimplemented!() }
+    #[verifier::external_body] fn query_state(&self, state: State) -> (r: bool) { unimplemented!() }
+    #[verifier::external_body] fn to_kstr(&self) -> (r: KStringCow) { unimplemented!() }
+    #[verifier::external_body] fn to_value(&self) -> (r: Value) { unimplemented!() }
+    #[verifier::external_body] fn as_scalar(&self) -> (r: Option<ScalarCow>) { unimplemented!() }
+    #[verifier::external_body] fn as_array(&self) -> (r: Option<&dyn ArrayView>) { unimplemented!() }
+    #[verifier::external_body] fn as_object(&self) -> (r: Option<&dyn ObjectView>) { unimplemented!() }
+    #[verifier::external_body] fn as_state(&self) -> (r: Option<State>) { unimplemented!() }
+    #[verifier::external_body] fn is_nil(&self) -> (r: bool) { unimplemented!() }
+}
+impl ArrayView for Array { }
+impl ObjectView for Object { }
+pub open spec fn as_dyn_array<T: ArrayView>(v: &T) -> &dyn ArrayView { v }
+pub open spec fn as_dyn_object<T: ObjectView>(v: &T) -> &dyn ObjectView { v }
+/// derive(Clone) on the payloads is structural
+impl Clone for Scalar { #[verifier::external_body] fn clone(&self) -> (r: Self) ensures r == *self { unimplemented!() } }
+impl Clone for Array { #[verifier::external_body] fn clone(&self) -> (r: Self) ensures r == *self { unimplemented!() } }
+impl Clone for Object { #[verifier::external_body] fn clone(&self) -> (r: Self) ensures r == *self { unimplemented!() } }
+impl Scalar {
+    pub uninterp spec fn borrowed(&self) -> ScalarCow;
+    /// Scalar = ScalarCow<'static>: `as_ref` re-borrows, `into_owned` is the identity on an owned scalar
+    #[verifier::external_body] pub fn as_ref(&self) -> (r: ScalarCow) ensures r == self.borrowed() { unimplemented!() }
+    #[verifier::external_body] pub fn into_owned(self) -> (r: Scalar) ensures r == self { unimplemented!() }
+}
+impl KStringCow {
+    pub uninterp spec fn of_static(s: &'static str) -> KStringCow;
+    #[verifier::external_body] pub fn from_static(s: &'static str) -> (r: KStringCow) ensures r == Self::of_static(s) { unimplemented!() }
+}
+
+/// The kind of a value is its variant, and each answer of a Value is the answer of its payload; nil answers for itself:
+/// it is not truthy, it is default / empty / blank, it has no scalar / array / object / state view, its text is "".
+impl ValueView for Value {
+    uninterp spec fn render_of(&self) -> DisplayCow;
+    uninterp spec fn source_of(&self) -> DisplayCow;
+    open spec fn type_name_of(&self) -> &'static str {
+        match *self { Value::Scalar(x) => x.type_name_of(), Value::Array(x) => x.type_name_of(), Value::Object(x) => x.type_name_of(), Value::State(x) => x.type_name_of(), Value::Nil => "nil" }
+    }
+    open spec fn state_of(&self, state: State) -> bool {
+        match *self { Value::Scalar(x) => x.state_of(state), Value::Array(x) => x.state_of(state), Value::Object(x) => x.state_of(state), Value::State(x) => x.state_of(state),
+                      Value::Nil => !(state is Truthy) }
+    }
+    open spec fn kstr_of(&self) -> KStringCow {
+        match *self { Value::Scalar(x) => x.kstr_of(), Value::Array(x) => x.kstr_of(), Value::Object(x) => x.kstr_of(), Value::State(x) => x.kstr_of(), Value::Nil => KStringCow::of_static("") }
+    }
+    /// "converting a value to its owned form preserves its kind and contents"
+    open spec fn value_of(&self) -> Value { *self }
+    open spec fn scalar_of(&self) -> Option<ScalarCow> { match *self { Value::Scalar(s) => Some(s.borrowed()), _ => None } }
+    open spec fn array_of(&self) -> Option<&dyn ArrayView> { match self { Value::Array(s) => Some(as_dyn_array::<Array>(s)), _ => None } }
+    open spec fn object_of(&self) -> Option<&dyn ObjectView> { match self { Value::Object(s) => Some(as_dyn_object::<Object>(s)), _ => None } }
+    open spec fn as_state_of(&self) -> Option<State> { match *self { Value::State(s) => Some(s), _ => None } }
+    open spec fn nil_of(&self) -> bool { *self is Nil }
+    #[verifier::external_body] fn render(&self) -> (r: DisplayCow) { unimplemented!() }
+    #[verifier::external_body] fn source(&self) -> (r: DisplayCow) { unimplemented!() }
+//@ item crates/core/src/model/value/values.rs :: impl ValueView for Value::type_name
+//@ props C12 C06 C02
+//@ sig fn type_name(&self) -> (r: &'static str)
+//@ end
+//@ item crates/core/src/model/value/values.rs :: impl ValueView for Value::query_state
+//@ props C12 C06 C02
+//@ sig fn query_state(&self, state: State) -> (r: bool)
+//@ end
+//@ item crates/core/src/model/value/values.rs :: impl ValueView for Value::to_kstr
+//@ props C12 C06 C02
+//@ sig fn to_kstr(&self) -> (r: KStringCow)
+//@ end
+//@ item crates/core/src/model/value/values.rs :: impl ValueView for Value::to_value
+//@ props C12 C06 C02
+//@ sig fn to_value(&self) -> (r: Value)
+//@ end
+//@ item crates/core/src/model/value/values.rs :: impl ValueView for Value::as_scalar
+//@ props C12 C06 C02
+//@ sig fn as_scalar(&self) -> (r: Option<ScalarCow>)
+//@ end
+//@ item crates/core/src/model/value/values.rs :: impl ValueView for Value::as_array
+//@ props C12 C06 C02
+//@ sig fn as_array(&self) -> (r: Option<&dyn ArrayView>)
+//@ end
+//@ item crates/core/src/model/value/values.rs :: impl ValueView for Value::as_object
+//@ props C12 C06 C02
+//@ sig fn as_object(&self) -> (r: Option<&dyn ObjectView>)
+//@ end
+//@ item crates/core/src/model/value/values.rs :: impl ValueView for Value::as_state
+//@ props C12 C06 C02
+//@ sig fn as_state(&self) -> (r: Option<State>)
+//@ end
+//@ item crates/core/src/model/value/values.rs :: impl ValueView for Value::is_nil
+//@ props C12 C06 C02
+//@ sig fn is_nil(&self) -> (r: bool)
+//@ end
+}
+/// what a Value is as a view: its payload, or itself when it is nil
+pub open spec fn value_view(v: &Value) -> &dyn ValueView {
+    match v { Value::Scalar(x) => as_dyn::<Scalar>(x), Value::Object(x) => as_dyn::<Object>(x), Value::Array(x) => as_dyn::<Array>(x), Value::State(x) => as_dyn::<State>(x), Value::Nil => as_dyn::<Value>(v) }
+}
 impl Value {
     #[verifier::external_body]
     pub fn default_nil() -> Value { unimplemented!() }
-    /// `Value::as_view`: the value itself as a view
-    #[verifier::external_body]
-    pub fn as_view(&self) -> (r: &dyn ValueView) ensures r == as_dyn::<Value>(self) { unimplemented!() }
+//@ item crates/core/src/model/value/values.rs :: impl Value::as_view
+//@ props C12 C02
+//@ sig pub fn as_view(&self) -> (r: &dyn ValueView)
+//@ spec
+    ensures r == value_view(self),                                                    // [C12:a_value_views_its_payload]
+//@ end
 }
 /// `static NIL: Value = Value::Nil;`
-pub open spec fn nil_static() -> Value { Value { repr: 0 } }
-pub exec static NIL: Value ensures NIL == nil_static() { Value { repr: 0 } }
+pub open spec fn nil_static() -> Value { Value::Nil }
+pub exec static NIL: Value ensures NIL == nil_static() { Value::Nil }
 
 // ---------------- Option<T>: "a missing value is nil, a present one is itself" ----------------
 /// what an Option stands for as a view
@@ -219,7 +384,7 @@ impl<V: ValueView + ?Sized> ValueView for &V {
 //@ end
 /// what a ValueCow stands for as a view
 pub open spec fn cow_view<'a, 's>(c: &'a ValueCow<'s>) -> &'a dyn ValueView {
-    match c { ValueCow::Owned(o) => as_dyn::<Value>(o), ValueCow::Borrowed(b) => *b }
+    match c { ValueCow::Owned(o) => value_view(o), ValueCow::Borrowed(b) => *b }
 }
 impl<'s> ValueCow<'s> {
 //@ item crates/core/src/model/value/cow.rs :: impl ValueCow<'_>::into_owned
